@@ -9,6 +9,7 @@ from trie.iter import NodeIterator
 from ..hexcommon import item_lists, keyspecs, literal_keys, lookup_keys, resolve_key, resolve_val, valspecs
 from ..ref.mpt import RefTrie
 from ..ref.rlp_hp import rlp_encode
+from ..faults import HookDB
 from ..util import Info, cm_enter, cm_exit, expect, expect_eq, impl, nibbles_of
 from .c01 import UNIVERSE
 
@@ -87,7 +88,7 @@ def run_case(case):
     info = Info()
     if "deep" in case:
         return _run_deep(case, info)
-    t = impl("construct", HexaryTrie, {})
+    t = impl("construct", HexaryTrie, HookDB())
     model = {}
     for k, vs in case["items"]:
         v = resolve_val(vs, k)
@@ -179,6 +180,21 @@ def _observe(t, it, model, case, info):
 
     pairs, _ = impl("items", zipped)
     expect_eq("items-in-order-each-once", pairs, [(k, model[k]) for k in order], "zip(keys(), values()) of one iterator")
+    # a database that calls back (an index, a lazy loader): a complete inner next() runs in the
+    # middle of an outer one on the same iterator; both answers must be right
+    if order and isinstance(t.db, HookDB):
+        qs = sorted(queries)
+        q_out, q_in = qs[len(qs) // 3], qs[(2 * len(qs)) // 3]
+        inner = []
+        t.db.arm(lambda kind, key: inner.append(it.next(q_in)), case.get("pick", len(qs)) % 3, kinds=("read",))
+        got_out = impl("next", it.next, q_out)
+        t.db.hook = None
+        expect_eq("next-is-strict-successor", got_out, next((k for k in order if k > q_out), None),
+                  f"next({q_out!r}) while another next() ran inside one of its database reads")
+        if inner:
+            expect_eq("next-is-strict-successor", inner[0], next((k for k in order if k > q_in), None),
+                      f"the inner next({q_in!r})")
+            info.label("re-entrant-next")
     nodes = impl("nodes", lambda: list(it.nodes()))
     want_nodes = [(n.prefix, n.enc) for n in ref.preorder()]
     got_nodes = [
